@@ -222,13 +222,13 @@ def check_python(report):
     r1.check(len(rets) == 1 and pmatch("cls(_M_, _U_, _B_)", rets[0].value) is not None, p, tp.node.lineno, ast.unparse(rets[0].value) if rets else "",
              "HttpRule(method, uri, body) in that order")
 
-    r4 = report.rule("C04.4p", "query_params = input fields - path params - body field (none for `*`); path-variable patterns are not greedy", floor=3)
+    r4 = report.rule("C04.4p", "query_params = input fields - path params - body field (none for `*`); path-variable patterns are not greedy", floor=2)
     qp = m.func("gapic.schema.wrappers.Method.query_params")
     r4.instance("query_params")
     ok = (find_match("set(self.input.fields) - _P_", qp.node)[0] is not None and find_match("set(self.path_params)", qp.node)[0] is not None
           and find_match("_B_ == '*'", qp.node)[0] is not None and find_match("_P_.add(_B_)", qp.node)[0] is not None)
     r4.check(ok, p, qp.node.lineno, "Method.query_params", "query parameters are all input fields minus path variables minus the body field; none when body is `*`")
-    for qual in ("gapic.schema.wrappers.Method.path_params", "gapic.schema.wrappers.Method.field_headers"):
+    for qual in ("gapic.schema.wrappers.Method.path_params",):      # field_headers' pattern is C06's (C06.4)
         f = m.func(qual)
         pats = [c.value for n in ast.walk(f.node) for c in ast.walk(n) if isinstance(c, ast.Constant) and isinstance(c.value, str) and "{" in c.value and "\\" in c.value + "\\" and ("(" in c.value)]
         for pt in set(pats):
